@@ -468,6 +468,23 @@ def input_paths_are_canonical(ctx, rid):
                 g = p.fns.get(gid)
                 if g is not None and g.crate == "rustfmt" and g.locals[0] == "std::path::PathBuf" and g not in makers and g not in fam:
                     makers.append(g)
+    # the loop form: `files.push(path.canonicalize().unwrap_or(path))` in determine_operation itself
+    pushes = []
+    for f in fam:
+        for c in f.calls():
+            if c.name.endswith("Vec::<T, A>::push") and len(c.args) > 1 and c.args[1][0] != "k" and f.locals[c.args[1][1][0]] == "std::path::PathBuf":
+                pushes.append((f, c))
+    for (f, c) in pushes:
+        calls = f.derived_from(c.args[1][1][0])["calls"]
+        canon = [x for x in calls if x.name.endswith("Path::canonicalize") or x.name.endswith("fs::canonicalize")]
+        other = [x for x in calls if x.name.endswith("path::absolute") or x.name.endswith("env::current_dir")]
+        ok = bool(canon) and not other
+        r.instance(rid, "%s: pushed input path" % short(f.id), "ok" if ok else "violation", c.loc(), "derives from canonicalize: %s" % bool(canon))
+        if not ok:
+            r.violation(rid, "determine_operation stores an input path that is not canonical",
+                        "the PathBuf pushed in %s does not derive from Path::canonicalize alone: the ignore list and the "
+                        "per-directory configuration are resolved from canonical directories" % short(f.id), [c.loc()])
+
     def sources(g, depth=0):
         # calls the returned path derives from, looking into helpers of the binary that build it
         out = []
@@ -493,5 +510,5 @@ def input_paths_are_canonical(ctx, rid):
                            "derives from %s" % [short(c.name) for c in other]), ["%s:%d" % (f.file, f.line)])
     cfg = [c for c in p.all_calls() if c.fn.crate == "rustfmt_nightly" and "::config::" in c.fn.id
            and (c.name.endswith("fs::canonicalize") or c.name.endswith("Path::canonicalize"))]
-    r.floor(rid, len(makers), 1, "closures of determine_operation that build an input path")
+    r.floor(rid, len(makers) + len(pushes), 1, "places of determine_operation that build an input path")
     r.floor(rid, len(cfg), 2, "canonicalize calls in the configuration lookup")
